@@ -8,7 +8,7 @@ import (
 // C16 — messages stay readable across schema evolution.
 //
 // Base messages A and every A' derived by an edit sequence of length <=2 from {add a field of each kind with a
-// fresh tag (before / after), remove field i, rename field i, reorder declarations, change nothing}. Both
+// fresh tag (before: small tag / after: tag > 255 congruent mod 256 to an existing tag), remove field i, rename field i, reorder declarations, change nothing}. Both
 // versions are generated and compiled; the reflective checker writes with one version and reads with the other.
 
 type c16kind struct {
@@ -51,7 +51,13 @@ func c16edits(b *builder, kinds []c16kind) []c16edit {
 	for ki, k := range kinds {
 		k, ki := k, ki
 		out = append(out, c16edit{"add " + k.name + " after", func(fs []SField) []SField {
-			return append(append([]SField{}, fs...), k.mk(b, fmt.Sprintf("added_%d_%d", ki, len(fs)), freshTag(fs, 300+ki)))
+			// the new tag is congruent mod 256 to the tag of an existing field (a tag compared after narrowing to
+			// one byte would alias them) and lies beyond the small-table tag range
+			alias := 300 + ki
+			if len(fs) > 0 {
+				alias = 256 + fs[ki%len(fs)].Tag
+			}
+			return append(append([]SField{}, fs...), k.mk(b, fmt.Sprintf("added_%d_%d", ki, len(fs)), freshTag(fs, alias)))
 		}})
 		out = append(out, c16edit{"add " + k.name + " before (small tag)", func(fs []SField) []SField {
 			return append([]SField{k.mk(b, fmt.Sprintf("first_%d_%d", ki, len(fs)), freshTag(fs, 1))}, fs...)
@@ -122,8 +128,12 @@ func c16Schemas(thorough bool) (*SPkg, []*Schema) {
 	if thorough {
 		nb = len(kinds)
 	}
-	tags := []int{2, 255, 256}
 	for bi := 0; bi < nb; bi++ {
+		// tags across the 255/256 boundary (big table as soon as the third field is written), or all small (small table)
+		tags := []int{2, 255, 256}
+		if bi%2 == 1 {
+			tags = []int{2, 44, 200}
+		}
 		// base A: three fields of rotating kinds across the tag 255/256 boundary
 		var fa []SField
 		for j := 0; j < 3; j++ {
